@@ -27,7 +27,7 @@ type atomOp struct {
 	text func(c int) string // c = thread/op-unique constant
 	// spec: state -> possible (state', result) pairs; isErr results carry ok=false.
 	// extra = how many times an inner effect on the *other* atom may have happened (>=1).
-	spec func(s atomSt, c int, extra int) (atomSt, string)
+	spec  func(s atomSt, c int, extra int) (atomSt, string)
 	inner bool // has an effect on the other atom that a retrying implementation may repeat
 }
 
@@ -62,12 +62,12 @@ type histOp struct {
 }
 
 type c09state struct {
-	inner  map[int]int // op constant -> how many times its update function ran
-	scope  types.EnvType
+	inner   map[int]int // op constant -> how many times its update function ran
+	scope   types.EnvType
 	a, b, k *concurrent.Atom
-	clock  int
-	hist   []*histOp
-	plan   [][]int
+	clock   int
+	hist    []*histOp
+	plan    [][]int
 }
 
 // linearizable: is there a total order of the completed operations, consistent with
@@ -390,11 +390,11 @@ func init() {
 			}
 		}
 		fam := &vf.Family{
-			Name:    "atom-scenarios",
-			Bounds:  fmt.Sprintf("all multisets of 2 threads x 1 op, 3 threads x 1 op, one op against a thread issuing three writes (bound 3; switching at the boundary between two operations of a thread is a free yield, not a preemption), (2 ops || 1 op) and, thorough, (2 ops || 2 ops) over %d atom operations on atoms a, b (and k, which holds what an update function kept of its rest arguments); per scenario all interleavings at lock operations and hook points of lib/concurrent up to preemption bound 2 (quick) / 3 (thorough), capped at 20000 (quick) / 200000 (thorough) executions per scenario", len(atomOps)),
-			Setup:   setup,
-			Timeout: 120 * time.Second,
-			N:       func(t string) int64 { tier = t; return int64(len(plansOf())) },
+			Name:     "atom-scenarios",
+			Bounds:   fmt.Sprintf("all multisets of 2 threads x 1 op, 3 threads x 1 op, one op against a thread issuing three writes (bound 3; switching at the boundary between two operations of a thread is a free yield, not a preemption), (2 ops || 1 op) and, thorough, (2 ops || 2 ops) over %d atom operations on atoms a, b (and k, which holds what an update function kept of its rest arguments); per scenario all interleavings at lock operations and hook points of lib/concurrent up to preemption bound 2 (quick) / 3 (thorough), capped at 20000 (quick) / 200000 (thorough) executions per scenario", len(atomOps)),
+			Setup:    setup,
+			Timeout:  120 * time.Second,
+			N:        func(t string) int64 { tier = t; return int64(len(plansOf())) },
 			Describe: func(i int64) string { return planStr(plansOf()[i]) },
 			Run: func(i int64, r *vf.Rec) {
 				plan := plansOf()[i]
@@ -431,10 +431,10 @@ func init() {
 		}
 		return &vf.Check{
 			RacePass: c09RacePass,
-			ID: "C09", Level: "model_checking",
-			Rule: "every scenario (threads x atom operations) is explored by the controlled scheduler over the real lib/concurrent: every interleaving at lock operations and hook points up to the preemption bound; each complete execution's call/return history must be linearizable w.r.t. the sequential atom specification (a failing function leaves the atom unchanged, a self-reading function sees the value it is applied to, inner updates of another atom may repeat) and no execution may deadlock; non-trivial = scenario with at least one context switch inside an operation",
+			ID:       "C09", Level: "model_checking",
+			Rule:        "every scenario (threads x atom operations) is explored by the controlled scheduler over the real lib/concurrent: every interleaving at lock operations and hook points up to the preemption bound; each complete execution's call/return history must be linearizable w.r.t. the sequential atom specification (a failing function leaves the atom unchanged, a self-reading function sees the value it is applied to, inner updates of another atom may repeat) and no execution may deadlock; non-trivial = scenario with at least one context switch inside an operation",
 			Assumptions: []string{"unsynchronised accesses between scheduling points are not seen by the cooperative scheduler (see the race pass)", "an update function updating its own atom is excluded by the property"},
-			Families: []*vf.Family{fam},
+			Families:    []*vf.Family{fam},
 		}
 	})
 }
